@@ -13,7 +13,80 @@ from ..families import window as W
 LEVEL_NOTE = "C01/windows: merge argument form (list / tuple / generator) must not matter; directed implementation stream"
 
 
+def lifetime_stream(ctx):
+    """The lifetime value of a merge tree equals the NON-windowed class fed everything every shard ever saw
+    (shards that received far more than max_num_updates updates included: their windows have wrapped), and the
+    windowed value right after a flat merge equals the non-windowed class fed the pooled windows."""
+    from .C13_window import ref_value
+    s = ctx.stream("lifetime / pooled window after merging shards whose windows have wrapped (implementation only)")
+    for e in W.ENTRIES:
+        if e.granularity == "sample":
+            continue
+        cfgs = [c for c in e.configs(ctx.rng, ctx.quick) if c.get("enable_lifetime")]
+        ok, seen = True, set()
+        for h in range(ctx.n(16, 160)):
+            cfg = cfgs[h % len(cfgs)]
+            N = e.window(cfg)
+            nsh = ctx.rng.choice([2, 3, 4])
+            shards, hist = [], []
+            for _ in range(nsh):
+                k = ctx.rng.choice([0, 1, N, N + 1, 2 * N + 1, 3 * N + 2])
+                bs = [e.gen_batch(ctx.rng, cfg, ctx.rng.choice([1, 2, 3])) for _ in range(k)]
+                m = e.make(cfg)
+                for b in bs:
+                    e.update(m, cfg, b)
+                shards.append(m)
+                hist.append(bs)
+            tgt = shards[0]
+            flat = nsh == 2 or ctx.rng.random() < 0.5
+            if flat:
+                tgt.merge_state(shards[1:])
+            else:                                   # sequential merges
+                for o in shards[1:]:
+                    tgt.merge_state([o])
+            allb = [b for bs in hist for b in bs]
+            pooled = [b for bs in hist for b in bs[-N:]]
+            s.case((e.name, repr(cfg), repr(hist)), any(len(bs) > N for bs in hist[1:]),
+                   sample={"class": e.name, "cfg": cfg, "updates_per_shard": [len(bs) for bs in hist]})
+            s.count("class:" + e.name)
+            if not allb:
+                continue
+            got = winlib.safe(lambda: e.out_val(tgt.compute()))
+            want = [ref_value(e, cfg, allb), ref_value(e, cfg, pooled)]
+            post = [e.gen_batch(ctx.rng, cfg, 2) for _ in range(ctx.rng.choice([0, 1, 2]))]
+            d = None
+            for idx, part in ((0, "lifetime"), (1, "pooled window")):
+                if not winlib.finite(want[idx]) or not isinstance(got, list) or len(got) != 2:
+                    continue
+                d = close(want[idx], got[idx], e.tol)
+                if d:
+                    d = f"{part} value after the merge vs the non-windowed class on {'everything seen' if idx == 0 else 'the pooled windows'}: {d}"
+                    break
+            if not d and post:
+                for b in post:
+                    e.update(tgt, cfg, b)
+                got2 = winlib.safe(lambda: e.out_val(tgt.compute()))
+                w2 = ref_value(e, cfg, allb + post)
+                if winlib.finite(w2) and isinstance(got2, list) and len(got2) == 2:
+                    d = close(w2, got2[0], e.tol)
+                    if d:
+                        d = f"lifetime value after the merge and {len(post)} more update(s): {d}"
+            trig = "merged-object-merged-again" if (d and not flat and d.startswith("pooled window")) else None
+            if d and (e.name, trig) not in seen:
+                seen.add((e.name, trig))
+                fid = winlib.match_finding(ctx.prop, e.name, trig)
+                ok = ok and fid is not None
+                s.mismatches.append({"class": e.name, "trigger": trig})
+                ctx.violation("failing-input", e.name,
+                              {"check": "window lifetime after merge", "class": e.name, "cfg": cfg, "shards": hist, "post": post,
+                               "grouping": "flat" if flat else "sequential", "trigger": trig,
+                               "observed": d, "broken": f"prop:lifetime-after-merge:{e.name}"},
+                              finding_id=fid)
+        ctx.oblige(f"prop:lifetime-after-merge:{e.name}", ok, detail="" if ok else "see failing inputs")
+
+
 def run(ctx):
+    lifetime_stream(ctx)
     s = ctx.stream("merge_state(list) vs merge_state(generator) (windows, implementation only)")
     for e in W.ENTRIES:
         cfgs = e.configs(ctx.rng, ctx.quick)
